@@ -312,7 +312,7 @@ class EventRelatedAnalyzer(desc.ResetMixin):
             # Loop over channels
             for i in range(self._len_h):
                 #If this is a list with one element:
-                if self._len_h == 1:
+                if isinstance(self.data, list):
                     event_trig = self.data[0][idx + add_offset]
                 #Otherwise, you need to index straight into the underlying data
                 #array:
@@ -379,7 +379,7 @@ class EventRelatedAnalyzer(desc.ResetMixin):
             # Loop over channels
             for i in range(self._len_h):
                 #If this is a list with one element:
-                if self._len_h == 1:
+                if isinstance(self.data, list):
                     event_trig = self.data[0][idx + add_offset]
                 #Otherwise, you need to index straight into the underlying data
                 #array:
